@@ -292,8 +292,27 @@ def run_history(case) -> CaseResult:
     try:
         link.start()
         link.pump()
-        conn.request_service()
-        link.pump()
+
+        if case.get('early'):
+            # connection-layer request straight after the key exchange:
+            # no ssh-userauth service request was made yet, so the server
+            # has not even begun authenticating anybody
+            if case['early'] == 'open':
+                conn.open_channel()
+            else:
+                conn.global_request(b'tcpip-forward', True,
+                                    string(b'127.0.0.1') + u32(0))
+
+            labels.add('probe-before-service-request')
+            history.append({'k': 'probe', 'u': None, 'valid': False,
+                            'cred': None, 'probe': True})
+            link.pump()
+            check_invariants(log, conn, history, link)
+
+        if alive():
+            conn.request_service()
+            link.pump()
+
         released_late = False
         last_user = None
 
@@ -800,6 +819,7 @@ def strategy(tier: str):
     return st.fixed_dictionaries({
         'gated': st.booleans(), 'opts': pick(range(len(OPTION_SETS))),
         'lazy': st.booleans(),
+        'early': pick([None, None, None, None, None, 'open', 'global']),
         'probe_req': pick(['exec', 'exec', 'shell', 'subsystem']),
         'ops': st.lists(op, min_size=0, max_size=7 if tier == 'quick'
                         else 12),
@@ -1223,7 +1243,8 @@ FAMILIES = [
                              'restrictions-probed', 'restricted-credential',
                              'forced-command-vs-shell',
                              'forced-command-vs-subsystem',
-                             'pre-auth-probe', 'pk:ok', 'pk:wrong-sid',
+                             'pre-auth-probe',
+                             'probe-before-service-request', 'pk:ok', 'pk:wrong-sid',
                              'pk:wrong-user', 'pk:wrong-service',
                              'pk:wrong-blob', 'pk:bad-sig',
                              'pk:other-signer', 'pk:alg-mismatch',
